@@ -679,7 +679,7 @@ func TestC09Giant(t *testing.T) {
 		}
 		W, H := bc.Bounds().Dx(), bc.Bounds().Dy()
 		sizes := [][2]int{{46340, 46340}, {46341, 46341}, {65535, 65535}, {65536, 65536}, {65537, 65537}, {39732, 56173}, {141732, 20079}, {1 << 20, 1 << 12}, {1 << 12, 1 << 20},
-			{1 << 24, 1 << 8}, {3000000, 700}, {W * 1000, H * 1000}, {W*1000 - 1, H*1000 + 7}, {W*4097 + 1, H * 4096}, {1 << 31, max(H, 2)}, {1<<31 + 1, max(H, 3)}, {1<<32 + 5, max(H, 1)},
+			{1 << 24, 1 << 8}, {3000000, 700}, {W * 1000, H * 1000}, {W*1000 - 1, H*1000 + 7}, {W*4097 + 1, H * 4096}, {big(31, 0), max(H, 2)}, {big(31, 1), max(H, 3)}, {big(32, 5), max(H, 1)},
 			{W - 1, 1 << 20}, {W, 1 << 22}, {100003, 100003}}
 		for k, sz := range sizes {
 			g := GiantCase{Source: s, W: sz[0], H: sz[1]}
@@ -701,6 +701,23 @@ func TestC09Giant(t *testing.T) {
 		for k, sz := range [][2]int{{pw - 1, ph}, {pw, ph}, {pw + 1, ph + 1}, {2*pw - 1, 2 * ph}, {2 * pw, 2 * ph}, {2*pw + 3, 2*ph + 1}, {pw, ph - 1}, {3*pw - 2, 3*ph + 5}} {
 			g := GiantCase{Source: s, Pre: [2]int{pw, ph}, W: sz[0], H: sz[1]}
 			if (k+si)%3 == 0 {
+				g.Fill = red
+			}
+			cases = append(cases, g)
+		}
+	}
+	// million-pixel 2D sources re-scaled to targets of 2^44..2^51 pixels a side: every single number is far below 2^53,
+	// but the cross products width*sourceHeight that an implementation may use to pick the limiting axis exceed 2^63
+	for si, s := range sources {
+		bc, _, _ := encodeSpec(s)
+		if bc.Metadata().Dimensions != 2 {
+			continue
+		}
+		W, H := bc.Bounds().Dx(), bc.Bounds().Dy()
+		for k, q := range [][4]int{{3000000, 2000000, big(45, 0), big(44, 0)}, {2000003, 3000001, big(44, 12345), big(45, 777)}, {3000000, 2000000, big(44, 0), big(45, 0)},
+			{W << 20, H << 20, big(50, 0), big(50, 1)}, {W << 21, H << 20, big(49, 3), big(51, 0)}, {W << 20, H << 22, big(51, -1), big(48, 5)}, {2000000, 3000000, big(52, -7), big(43, 0)}} {
+			g := GiantCase{Source: s, Pre: [2]int{q[0], q[1]}, W: q[2], H: q[3]}
+			if (k+si)%4 == 0 {
 				g.Fill = red
 			}
 			cases = append(cases, g)
